@@ -486,6 +486,42 @@ func checkC16(c *Ctx) {
 				r.OK("C16.5", "SCTPConn.Write: write only under BufferedAmount+len <= max or after the flow-control wait", wr.Pos(), "must-pass")
 			}
 		}
+		// the wait itself: a select that waits for the low-watermark signal may have other cases (closed), but only
+		// the watermark case may continue to the write - a timer / default case that falls through defeats flow control
+		if wr != nil {
+			eachInstr(f, func(in ssa.Instruction) {
+				sel, ok := in.(*ssa.Select)
+				if !ok {
+					return
+				}
+				hasWM := false
+				for _, st := range sel.States {
+					if st.Dir == 2 && strings.HasSuffix(pathOf(st.Chan), ".write") {
+						hasWM = true
+					}
+				}
+				if !hasWM {
+					return
+				}
+				idxPath := pathOf(sel) + "#0"
+				okSel := sel.Blocking
+				why := "the flow-control select has a default case: it does not wait"
+				for i, st := range sel.States {
+					if st.Dir == 2 && strings.HasSuffix(pathOf(st.Chan), ".write") {
+						continue
+					}
+					for e := range edgesEstablishing(f, atomMatcher(Atom{"(" + orderEq(fmt.Sprint(i), idxPath) + ")", true})) {
+						succ := f.Blocks[e.from].Succs[e.slot]
+						if hit, _ := reachAt(f, succ, isInstr(wr), nil, nil); hit {
+							okSel = false
+							why = "case " + fmt.Sprint(i) + " (" + firstN(pathOf(st.Chan), 40) + ") of the flow-control select continues to stream.Write"
+						}
+					}
+				}
+				r.Check(okSel, "C16.5", "SCTPConn.Write: only the low-watermark case of the flow-control select continues to the write", in.Pos(), fnName(f), "other cases leave the function",
+					why+": after that case fires the message is written although the buffered amount is still above the limit, so a stalled network no longer holds the writer back")
+			})
+		}
 		if nf := c.fn("C16.5", dt, "", "newSCTPConn"); nf != nil {
 			okT := false
 			for _, ci := range callsIn(nf, shortIs("SetBufferedAmountLowThreshold")) {
@@ -502,6 +538,40 @@ func checkC16(c *Ctx) {
 
 	// ---- C16.6
 	r.Rule("C16.6", "client heartbeat period is below the server watchdog interval", 1)
+	// the watchdog is re-armed every interval: between two inspections of the received-heartbeat flag the flag is
+	// cleared, otherwise one heartbeat keeps the connection alive forever
+	if f := c.fn("C16.6", dt, "hbConn", "hbLoop"); f != nil {
+		var load *ssa.Call
+		clears := map[ssa.Instruction]bool{}
+		eachInstr(f, func(in ssa.Instruction) {
+			call, ok := in.(*ssa.Call)
+			if !ok {
+				return
+			}
+			switch calleeName(&call.Call) {
+			case "sync/atomic.LoadUint32":
+				if strings.HasSuffix(pathOf(call.Call.Args[0]), ".waiting") {
+					load = call
+				}
+			case "sync/atomic.StoreUint32", "sync/atomic.SwapUint32":
+				if cv, ok := constOf(call.Call.Args[1]); ok && cv.ExactString() == "0" && strings.HasSuffix(pathOf(call.Call.Args[0]), ".waiting") {
+					clears[in] = true
+				}
+			case "sync/atomic.CompareAndSwapUint32":
+				if cv, ok := constOf(call.Call.Args[2]); ok && cv.ExactString() == "0" && strings.HasSuffix(pathOf(call.Call.Args[0]), ".waiting") {
+					clears[in] = true
+				}
+			}
+		})
+		if load == nil {
+			r.Unk("C16.6", "hbLoop: inspection of the heartbeat flag", f.Pos(), fnName(f), "atomic load of .waiting not found")
+		} else {
+			again, w := reach(f, load, isInstr(load), anyOf(clears), nil)
+			r.Check(!again, "C16.6", "hbLoop: the heartbeat flag is cleared between two inspections", load.Pos(), fnName(f), fmt.Sprintf("%d clearing store(s), must-pass on the loop", len(clears)),
+				"the watchdog can inspect the received-heartbeat flag twice without clearing it in between: after the first heartbeat the flag stays set and a peer that stops sending heartbeats (while data keeps the read deadline fresh) is never closed")
+			_ = w
+		}
+	}
 	{
 		clientInterval, serverInterval := "", ""
 		if f := c.fn("C16.6", dt, "", "openSCTP"); f != nil {
